@@ -24,6 +24,48 @@ func init() {
 
 func c19() []*Ob {
 	return []*Ob{
+		{Prop: "C19", ID: "C19.11", Engine: "DOM(loop exit)", Floor: 1,
+			Desc: "a resumed search goes through all of its fractions: the loop of AsyncSearcher.doSearch that calls processFrac is left early only on the way to a return — never on to the statement that marks the request done; skipping an already processed fraction is a `continue` (a `break` there ends a search that is resumed after a restart at the first fraction that was done before the restart, and reports it finished)",
+			Check: func(c *Ctx) {
+				fn := c.Fn("(*fracmanager.AsyncSearcher).doSearch")
+				if fn == nil {
+					return
+				}
+				var loop *Loop
+				for _, lc := range c.P.FindLifted(fn, CallSel(Callee("(*fracmanager.AsyncSearcher).processFrac"))) {
+					if l := InnermostLoop(lc.Top().Block()); l != nil {
+						loop = l
+					}
+				}
+				if loop == nil {
+					c.Undecided("dom:doSearch:noloop", fn.Pos(), "doSearch no longer calls processFrac from a loop")
+					return
+				}
+				var done []ssa.Instruction
+				for _, st := range InstrsIn(fn, func(in ssa.Instruction) bool {
+					s, ok := in.(*ssa.Store)
+					if !ok {
+						return false
+					}
+					_, f, _, okF := FieldOf(s.Addr)
+					v, isB := ConstBool(s.Val)
+					return okF && f == "Done" && isB && v
+				}) {
+					done = append(done, st)
+				}
+				bad := 0
+				for _, e := range loop.EarlyExits() {
+					for _, d := range done {
+						if e[1] == d.Block() || Reachable(e[1], d.Block()) {
+							bad++
+							c.Violation("dom:doSearch:early-exit", e[0].Instrs[len(e[0].Instrs)-1].Pos(), "doSearch can leave the loop over the request's fractions early and still mark the request done: the remaining fractions are never searched")
+						}
+					}
+				}
+				if bad == 0 {
+					c.Site(loop.Header.Instrs[0].Pos(), "the fraction loop is left early only towards a return (%d early exit(s))", len(loop.EarlyExits()))
+				}
+			}},
 		{Prop: "C19", ID: "C19.9", Engine: "CODEC(json types)", Floor: 1,
 			Desc: "what is persisted can be read back: every type reachable through exported, JSON-visible fields from a value the asynchronous searcher hands to json.Unmarshal is one encoding/json can decode — no interface type with methods (only interface{} and types with their own UnmarshalJSON are decodable), no channel or function type; otherwise the whole .info file fails to load at the next start and the search, finished or not, is gone",
 			Check: func(c *Ctx) {
